@@ -768,6 +768,14 @@ func (rw *rewriter) expr(e ast.Expr) ast.Expr {
 				if len(x.Args) == 0 {
 					return call("Gosched", rw.newSite(x.Pos(), "gosched"))
 				}
+			case "time.Now":
+				if len(x.Args) == 0 {
+					return call("Now", rw.newSite(x.Pos(), "clock"))
+				}
+			case "time.Since", "time.Until":
+				if len(x.Args) == 1 {
+					return call(strings.TrimPrefix(name, "time."), x.Args[0], rw.newSite(x.Pos(), "clock"))
+				}
 			case "time.After", "time.NewTimer", "time.NewTicker", "time.Tick":
 				if len(x.Args) == 1 {
 					fn := map[string]string{"time.After": "TimeAfter", "time.NewTimer": "NewTimer", "time.NewTicker": "NewTicker", "time.Tick": "TimeTick"}[name]
